@@ -23,6 +23,7 @@ pub fn rule_text(vec: &Value) -> String {
             let f1 = FEATS[vec["f1"].as_u64().unwrap() as usize - 1].2;
             format!("[{sign}{f1}, α{name}] > [α{g}]")
         }
+        "lenmix" => format!("[] > [{}long, {sign}{name}] / #_", if vec["inv"].as_bool().unwrap() { "-" } else { "+" }),
         _ => panic!("unknown shape"),
     }
 }
@@ -35,7 +36,13 @@ pub fn replay() {
         let combo = vec["shape"] == "combo";
         // combo: a two-syllable word, the partner segment first (so that whatever a failed attempt on it leaves behind would reach the target)
         let (seg2, exp2) = (json_seg(&vec["seg2"]), json_seg(&vec["exp2"]));
-        let word = if combo { v::make_word(&[(vec![seg2], 0, 0), (vec![seg], 0, 0)], false) } else { v::make_word(&[(vec![seg], 0, 0)], false) };
+        let lenmix = vec["shape"] == "lenmix";
+        let shorten = vec["inv"].as_bool().unwrap_or(false);
+        // lenmix: one syllable, the target unit (long when it is to be shortened) followed by the partner
+        if lenmix && (seg2 == seg || seg2 == json_seg(&vec["exp"])) { sum.vectors -= 1; sum.count("lenmix_skipped_equal_neighbours", 1); return; }
+        let word = if combo { v::make_word(&[(vec![seg2], 0, 0), (vec![seg], 0, 0)], false) }
+                   else if lenmix { v::make_word(&[(if shorten { vec![seg, seg, seg2] } else { vec![seg, seg2] }, 0, 0)], false) }
+                   else { v::make_word(&[(vec![seg], 0, 0)], false) };
         let text = rule_text(&vec);
         let exp_ok = vec["st"].as_str().unwrap() == "ok";
         let exp = json_seg(&vec["exp"]);
@@ -56,7 +63,9 @@ pub fn replay() {
             Ok(Err(_)) => !exp_ok,
             Ok(Ok(steps)) if exp_ok => steps.last().map(|st| {
                 let w = &st.word;
-                if combo { w.syllables.len() == 2 && w.syllables.iter().all(|s| s.segments.len() == 1 && s.tone == 0) && w.syllables[0].segments[0] == exp2 && w.syllables[1].segments[0] == exp }
+                if lenmix { let want: Vec<v::Segment> = if shorten { vec![exp, seg2] } else { vec![exp, exp, seg2] };
+                            w.syllables.len() == 1 && w.syllables[0].segments.iter().copied().collect::<Vec<_>>() == want }
+                else if combo { w.syllables.len() == 2 && w.syllables.iter().all(|s| s.segments.len() == 1 && s.tone == 0) && w.syllables[0].segments[0] == exp2 && w.syllables[1].segments[0] == exp }
                 else { w.syllables.len() == 1 && w.syllables[0].segments.len() == 1 && w.syllables[0].segments[0] == exp
                     && w.syllables[0].tone == 0 && stress_str(w.syllables[0].stress) == "U" }
             }).unwrap_or(false),
